@@ -282,7 +282,11 @@ theorem InvR_step (q : Quirks) (hq : Repaired q) (s : State) (e : Event) (hR : I
       have hB : InvB s := ⟨hR.inv, hR.quiet, Calm_of_calmReg hR hok.1⟩
       exact (InvB_runBatch q hq now c _ _ (InvB_setConn_tx hB c (fun cs => { cs with pending := [] }) (fun _ => ⟨rfl, rfl, rfl⟩))
         (Open_setConn_tx (Open_of_canRun hcr) c (fun cs => { cs with pending := [] }) (fun _ => ⟨rfl, rfl, rfl⟩)) hok2).toR
-    · exact hR
+    · next hcr =>
+      have hok2 := hok.2
+      simp only [hcr, Bool.false_eq_true, if_false, Bool.not_eq_true'] at hok2
+      simp only [hok2, Bool.false_eq_true, if_false]
+      exact hR
   | timeouts now =>
     exact ⟨InvF_timeouts now s hR.inv hR.quiet, by
       show (iter (expireOne now) s.registry.length s).wakeQ = []
